@@ -85,7 +85,7 @@ def _layout(rng):
 
 
 def _size(rng):
-    if rng.random() < 0.004:
+    if rng.random() < 0.0015:
         return int(rng.choice([4097, 5000, 9000]))  # thousands of droplets (a foam, a long track)
     return int(rng.choice([0, 1, 1, 2, 2, 3, 7, 12, 13]))
 
